@@ -14,8 +14,113 @@ class Infra(Exception):
     """infrastructure problem: exit 2, never a verdict"""
 
 
+class Crashed(Exception):
+    """the code under test killed a harness process and the killing call was reproduced alone: the check ends with that violation"""
+
+
 def log(*a):
     print(*a, file=sys.stderr, flush=True)
+
+
+# ------------------------------------------------------------------ crash attribution
+FATAL_MARKS = ("fatal error:", "runtime: goroutine stack exceeds", "runtime: out of memory")
+JOURNAL_SLOTS, JOURNAL_SLOT_SIZE = 4096, 64 << 10      # harness/journal.go
+
+
+def looks_fatal(rc, stderr):
+    return rc is not None and rc != 0 and (rc < 0 or any(k in (stderr or "") for k in FATAL_MARKS))
+
+
+def journal_env(ctx, env=None):
+    """environment for one harness process: every call of an exported function is journalled (arguments, per goroutine)"""
+    ctx._jn = getattr(ctx, "_jn", 0) + 1
+    jp = os.path.join(ctx.scratch, "journal-%d.bin" % ctx._jn)
+    e = dict(os.environ if env is None else env)
+    if not os.environ.get("VERIF_NOJOURNAL"):
+        e["VERIF_JOURNAL"] = jp
+    return e, jp
+
+
+def journal_candidates(jp):
+    out = []
+    if not os.path.exists(jp):
+        return out
+    size = os.path.getsize(jp)
+    with open(jp, "rb") as f:
+        for slot in range(JOURNAL_SLOTS):
+            off = slot * JOURNAL_SLOT_SIZE
+            if off >= size:
+                break
+            f.seek(off)
+            if f.read(1) != b"{":
+                continue
+            line = b"{" + f.readline(JOURNAL_SLOT_SIZE)
+            try:
+                r = json.loads(line)
+            except ValueError:
+                continue
+            if not r.get("args"):
+                continue
+            if r not in out:
+                out.append(r)
+    return out
+
+
+def after_harness(ctx, name, rc, stderr, jp):
+    """Call after every harness process.  If the process was killed by a fatal runtime error (stack overflow, out of memory:
+    nothing recover() can catch, so no observation exists), every call that had not returned is run ALONE in a fresh process, twice;
+    a call that kills that process both times is a reproduced violation ("crash") and ends the check.  Anything else is left to the
+    caller (an infrastructure problem, exit 2)."""
+    try:
+        if not looks_fatal(rc, stderr):
+            return
+        found = []
+
+        def alone(mf, stack_mb, timeout):
+            env = dict(os.environ)
+            if stack_mb:
+                env["VERIF_MAXSTACK_MB"] = str(stack_mb)
+            try:
+                p = subprocess.run([ctx.harness, "run1", "-event", mf, os.path.join(ctx.scratch, "crash-trace.ndjson")],
+                                   capture_output=True, text=True, timeout=timeout, env=env)
+            except subprocess.TimeoutExpired:
+                return None
+            if not looks_fatal(p.returncode, p.stderr):
+                return None
+            return next((l for l in p.stderr.splitlines() if any(k in l for k in FATAL_MARKS)), "process died rc=%d" % p.returncode)
+
+        for n, r in enumerate(journal_candidates(jp)[:256]):
+            mf = os.path.join(ctx.scratch, "crash-cand-%d.json" % n)
+            args = [bytes.fromhex(h) for h in r["args"]]
+            m = {"what": "crash", "fn": r["fn"], "rawhex": r["args"], "expr": args[0].decode("utf-8", "replace"),
+                 "list": [a.decode("utf-8", "replace") for a in args[1:]],
+                 "expected": "the call returns (a result or an error)", "source": name}
+            with open(mf, "w") as fh:
+                json.dump(m, fh)
+            # first pass: alone, in a fresh process, with the goroutine stack limited to 256 MB (quick); every call journalled has
+            # arguments of < 64 KB, so none of them can legitimately need that much
+            d = alone(mf, 256, 300)
+            if d is None:
+                continue
+            if not found:
+                # the first one is confirmed under the runtime's default limits (1 GB stack: slow), the rest are reported as observed
+                d2 = alone(mf, 0, 1800)
+                if d2 is None:
+                    continue
+                d = d2
+            m["observed"] = "the process dies: " + d
+            found.append(m)
+            if len(found) >= 5:
+                break
+        if found:
+            ctx.mismatches += found
+            ctx.stages.append({"stage": name, "kind": "ABORTED: the harness process was killed by the code under test", "calls_reproduced_alone": len(found)})
+            raise Crashed(name)
+    finally:
+        try:
+            os.remove(jp)
+        except OSError:
+            pass
 
 
 class Ctx:
@@ -115,12 +220,13 @@ class Ctx:
         e = dict(os.environ)
         e.update(env or {})
         e["VERIF_SEED"] = str(self.seed)
+        je, jp = journal_env(self, e)
         tl = subprocess.Popen(self.tlc_cmd(module, cfg, workers, extra), cwd=self.spec, stdout=subprocess.PIPE,
                               stderr=subprocess.STDOUT, env=e)
         rp = subprocess.Popen([self.harness, "replay", "-prop", self.prop, "-log", logp, "-out", sump,
                                "-seed", str(self.seed), "-workers", str(NCPU), "-reps", str(reps)]
                               + (["-allvariants"] if self.tier == "thorough" else []) + list(replay_args),
-                              stdin=tl.stdout, stdout=subprocess.PIPE, stderr=subprocess.PIPE)
+                              stdin=tl.stdout, stdout=subprocess.PIPE, stderr=subprocess.PIPE, env=je)
         tl.stdout.close()
         try:
             rout, rerr = rp.communicate(timeout=timeout)
@@ -128,6 +234,12 @@ class Ctx:
         except subprocess.TimeoutExpired:
             tl.kill(); rp.kill()
             raise Infra("%s: TLC/replay timed out after %ds" % (name, timeout))
+        if rp.returncode != 0:
+            try:
+                tl.kill()
+            except OSError:
+                pass
+        after_harness(self, "S->I:" + name, rp.returncode, rerr.decode(errors="replace"), jp)
         with open(logp) as f:
             tlog = f.read()
         if rp.returncode != 0:
@@ -175,8 +287,10 @@ class Ctx:
     # ------------------------------------------------------- trace validation
     def drive(self, name, flavor, n, leaves=8, extra=()):
         path = os.path.join(self.spec, "trace.ndjson")
+        je, jp = journal_env(self)
         p = subprocess.run([self.harness, "drive", "-seed", str(self.seed), "-n", str(n), "-flavor", flavor,
-                            "-leaves", str(leaves), "-out", path] + list(extra), capture_output=True, text=True)
+                            "-leaves", str(leaves), "-out", path] + list(extra), capture_output=True, text=True, env=je)
+        after_harness(self, "I->S:" + name, p.returncode, p.stderr, jp)
         if p.returncode != 0:
             raise Infra("drive failed: " + p.stderr[-2000:])
         return path
@@ -240,7 +354,9 @@ def sessions(ctx, n=None):
     found = []
     for k, seed in enumerate((2 * ctx.seed, 2 * ctx.seed + 1)):
         path = os.path.join(ctx.spec, "trace.ndjson")
-        p = subprocess.run([ctx.harness, "drive", "-seed", str(seed), "-n", str(n), "-flavor", "session", "-out", path], capture_output=True, text=True)
+        je, jp = journal_env(ctx)
+        p = subprocess.run([ctx.harness, "drive", "-seed", str(seed), "-n", str(n), "-flavor", "session", "-out", path], capture_output=True, text=True, env=je)
+        after_harness(ctx, "I->S:sessions-%s" % ("fwd" if k else "bwd"), p.returncode, p.stderr, jp)
         if p.returncode != 0:
             raise Infra("drive (sessions) failed: " + p.stderr[-2000:])
         found += ctx.validate_trace("sessions-%s" % ("fwd" if k else "bwd"))
@@ -287,7 +403,7 @@ def finish(ctx, relevant, level="model_checking", extra_cov=None, rule=None):
     for m in ctx.mismatches:
         m.setdefault("property", ctx.prop)
         m["property"] = ctx.prop
-        if m["what"] not in relevant and m["what"] not in ("panic", "unstable-result", "result-overwritten"):
+        if m["what"] not in relevant and m["what"] not in ("panic", "crash", "unstable-result", "result-overwritten"):
             foreign.append(m)
             continue
         hit = next((e for e in known if finding_matches(e, m)), None)
@@ -368,6 +484,10 @@ def main(argv):
         ctx.build()
         ctx.export()
         return props.CHECKS[prop](ctx)
+    except Crashed as e:
+        log("[%s] the code under test killed the harness process in stage %s; the call was reproduced alone" % (prop, e))
+        return finish(ctx, relevant=set(), rule="aborted: a call of an exported function killed the process (fatal runtime error); the call was "
+                                                "re-run alone in a fresh process twice and killed it both times")
     except Infra as e:
         log("INFRASTRUCTURE PROBLEM (exit 2, not a verdict):", e)
         return 2
